@@ -17,7 +17,7 @@ func init() {
 		Assume: []string{"reshape is excluded (C13: it follows the tensor's own data order)", "transposition of column-major tensors is covered by C03 (source F) and recorded there"}})
 }
 
-var lfAll = []string{"F", "Fc", "FS", "FT", "FM"}
+var lfAll = []string{"F", "Fc", "FS", "FT", "FM", "FR"}
 
 func runC16(r *core.Run) {
 	propPfx = "C16:"
@@ -83,7 +83,12 @@ func runC16(r *core.Run) {
 					snap := b.Snapshot()
 					var fails []string
 					kinds := map[string]bool{}
-					for _, sl := range atlas.SliceLists(shape, atlas.AxisAlphabet) {
+					lists := atlas.SliceLists(shape, atlas.AxisAlphabet)
+					// slice lists shorter than the rank (only leading axes given)
+					for k := 1; k < len(shape); k++ {
+						lists = append(lists, atlas.SliceLists(shape[:k], atlas.AxisAlphabet)...)
+					}
+					for _, sl := range lists {
 						v := checkSlice(b, sl, "Slice", snap)
 						r.Op(1)
 						if v.kind != "" && !strings.Contains(v.kind, "[KF:") && v.kind != "unexpected-refusal" {
@@ -192,7 +197,7 @@ func runC16(r *core.Run) {
 					continue
 				}
 				for _, form := range []string{"TS", "ST"} {
-					for _, mode := range []string{"safe", "unsafe", "reuse:F"} {
+					for _, mode := range []string{"safe", "unsafe", "reuse:F", "reuse:C", "incr:F", "incr:C"} {
 						ewRunCase(r, "C16:C06", ewCase{kind: "arith", op: "Sub", form: form, mode: mode, api: "func", d: d, shape: shape, layA: la, layB: la, vs: "id"}, nil)
 						if d.Class != ref.CComplex {
 							ewRunCase(r, "C16:C11", ewCase{kind: "cmp", op: "Gt", form: form, mode: mode, api: "func", d: d, shape: shape, layA: la, layB: la, vs: "id"}, nil)
